@@ -1048,6 +1048,13 @@ class PlusMinusPlugin(Plugin):
                 # -: put the next node in the banned group
                 next = banned
             else:
+                # A parenthesized group can use + and - as well
+                if (isinstance(node, syntax.GroupNode)
+                    and any(isinstance(n, (self.Plus, self.Minus))
+                            for n in node)):
+                    boost = node.boost
+                    node = self.do_plusminus(parser, node)
+                    node.set_boost(boost)
                 # Anything else: put it in the appropriate group
                 next.append(node)
                 # Reset to putting things in the optional group by default
